@@ -9,7 +9,7 @@ RULE = ("random (generator x shape 1x1..8x8 incl. 1xk/kx1/oblong x every keyword
         "wrong-length tuple - there the real code must raise ValueError before consuming randomness and the model must be in its "
         "start-rejected error branch, and a RETURNED maze is a violation; RNG draws tapped from the real run; "
         "plus exhaustive enumeration of EVERY python-random choice sequence of default gen_dfs/gen_prim on small grids; "
-        "non-trivial = run produced at least one connection or consumed a draw; distinct = distinct (case, draw sequence); later additions: both call routes (LatticeMazeGenerators.gen_x and GENERATORS_MAP['gen_x']), the documented default p (argument omitted in 1 of 8 percolation cases), start_coord as the caller's own numpy array that the caller increments right after the call, small-integer grid-shape dtypes, long thin grids, scripted Wilson walks of 70*(rows*cols)^2 steps on small grids (incl. a 1x4 strip), generate_random_path() on every generated maze")
+        "non-trivial = run produced at least one connection or consumed a draw; distinct = distinct (case, draw sequence); later additions: both call routes (LatticeMazeGenerators.gen_x and GENERATORS_MAP['gen_x']), the documented default p (argument omitted in 1 of 8 percolation cases), start_coord as the caller's own numpy array that the caller increments right after the call, small-integer grid-shape dtypes, long thin grids, scripted Wilson walks of 70*(rows*cols)^2 steps on small grids (incl. a 1x4 strip), generate_random_path() on every generated maze, get_neighbors_in_bounds results converted in place by the caller before any generator runs")
 ASSUMPTIONS = ["a start_coord that is not a pair of integers is outside the model's type Cell = Int x Int: the driver answers start_wrong_length without evaluating a model function; that the real code raises ValueError for it is checked on the real code only",
                "the recording shims on numpy.random.* and generators.random delegate to the real RNGs (a tapped run is a genuine run)",
                "numpy/CPython semantics of np.argmax, np.where order, set membership as modelled (validated by exact agreement on every run)",
